@@ -114,6 +114,11 @@ def cfg_mutants(RG, rng, limit=10):
         rhs = list(R[i][1])
         rhs[0], rhs[1] = rhs[1], rhs[0]
         out.append(('swap_symbols', cf.make(V, S, R[:i] + [(R[i][0], tuple(rhs))] + R[i + 1:], S0)))
+    # the same rules with another start variable (its rules first: the simple text format takes the first rule's variable)
+    others = [v for v in V if v != S0 and any(A_ == v for (A_, _) in R)]
+    if others:
+        B2 = rng.choice(others)
+        out.append(('same_rules_other_start_variable', cf.make(V, S, [r for r in R if r[0] == B2] + [r for r in R if r[0] != B2], B2)))
     # duplicate a rule (same language)
     if R:
         out.append(('duplicate_rule_order', cf.make(V, S, R[1:] + R[:1] if R[0][0] == R[-1][0] else R, S0)))
